@@ -198,6 +198,9 @@ def execute_io(kind, keys, natom):
                 ev["out"] = "loaded-as:" + str((obj.extra or {}).get("schema_name"))
                 return ev
             ev["placed"] = placement_io(obj, kind, keys, vals)
+            if kind == "output" and natom % 2:
+                # the loaded object is edited before it is written again (a corrected energy): the edit is what the file must say
+                obj.energy = -3.75 - natom
             p2 = os.path.join(tmp, "d2.json")
             try:
                 api.dump_one(obj, p2, fmt="json_qcschema")
@@ -215,7 +218,8 @@ def execute_io(kind, keys, natom):
                 ev["drift"] = ["reload:" + type(exc).__name__ + ":" + str(exc.__cause__ or exc)[:60].replace(tmp, "")]
                 return ev
         d = diff(deep(public_state(obj)), deep(public_state(obj2)))
-        allowed = ("provenance", "schema_version", "schema_name")
+        # the writer records the energy of the object as properties.return_energy (and as return_result of an energy job)
+        allowed = ("provenance", "schema_version", "schema_name", "return_energy") + (("return_result",) if vals["driver"] == "energy" else ())
         drift = sorted({x for x in d if not any(a in x for a in allowed)})
         ev["drift"] = [x[:80] for x in drift][:6]
         ev["reload_same"] = not drift
